@@ -205,7 +205,12 @@ func (c *certStatusChecker) executeInitialStatusAction(ctx context.Context,
 			return fmt.Errorf("recovery: error updating local storage with agglayer certificate: %w", err)
 		}
 	case InitialStatusActionInsertNewCert:
-		if _, err := c.updateLocalStorageWithAggLayerCert(ctx, action.cert); err != nil {
+		retryCount := 0
+		if localCert != nil && action.cert != nil && localCert.Height == action.cert.Height {
+			// the agglayer certificate replaces the local one at the same height: it is a retry of it
+			retryCount = localCert.RetryCount + 1
+		}
+		if _, err := c.storeAggLayerCert(ctx, action.cert, retryCount); err != nil {
 			return fmt.Errorf("recovery: error new local storage with agglayer certificate: %w", err)
 		}
 	default:
@@ -217,6 +222,12 @@ func (c *certStatusChecker) executeInitialStatusAction(ctx context.Context,
 // updateLocalStorageWithAggLayerCert updates the local storage with the certificate from the AggLayer
 func (c *certStatusChecker) updateLocalStorageWithAggLayerCert(ctx context.Context,
 	aggLayerCert *agglayertypes.CertificateHeader) (*types.Certificate, error) {
+	return c.storeAggLayerCert(ctx, aggLayerCert, 0)
+}
+
+// storeAggLayerCert stores the certificate from the AggLayer in the local storage with the given retry count
+func (c *certStatusChecker) storeAggLayerCert(ctx context.Context,
+	aggLayerCert *agglayertypes.CertificateHeader, retryCount int) (*types.Certificate, error) {
 	cert, err := newCertificateInfoFromAgglayerCertHeader(aggLayerCert)
 	if err != nil {
 		return nil, fmt.Errorf("error creating certificate from AggLayer header: %w", err)
@@ -224,6 +235,7 @@ func (c *certStatusChecker) updateLocalStorageWithAggLayerCert(ctx context.Conte
 	if cert == nil {
 		return nil, nil
 	}
+	cert.Header.RetryCount = retryCount
 
 	c.log.Infof("setting initial certificate from AggLayer: %s", cert.String())
 	return cert, c.storage.SaveLastSentCertificate(ctx, *cert)
